@@ -150,7 +150,8 @@ cdef Split compute_all_splits(Split best_split,
         # First the leaf leaves the cluster
         leaf_star = leaf_square * (1 / n_leaf + 1 / delta_size) + gamma[k, k] * (
                 1 / delta_size - 1 / cluster_sizes[k])
-        leaf_star -= 2 * omega[k, feature_id] / delta_size
+        # sigma(N x C_k) = sigma(Sl x C_k) + sigma(Sr x C_k)
+        leaf_star -= 2 * (sl_clusters[k] + sr_clusters[k]) / delta_size
 
         delta_size = n_leaf - split_size
         split_star = sl_square * (1 / split_size + +1 / delta_size) + leaf_square * (
@@ -158,7 +159,7 @@ cdef Split compute_all_splits(Split best_split,
         # sigma(Sl\times N) + sigma(Sr\times N) = sigma(N^2)
         # sigma(Sl, sl) + sigma(sr,sr) - 2sigma(N^2) = 2* leftover
         sl_sr = (leaf_square - sl_square - sr_square) / 2
-        split_star -= (sl_square + sl_sr) / delta_size
+        split_star -= 2 * (sl_square + sl_sr) / delta_size
 
         double_star_gain = split_star + leaf_star
         if double_star_gain > best_split.gain:
@@ -234,7 +235,7 @@ cdef Split compute_all_splits(Split best_split,
             if right_switch >= top_gain_right:
                 top_gain_right, second_gain_right = right_switch, top_gain_right
                 top_k_right, second_k_right = k_prime, top_k_right
-            elif left_switch >= second_gain_right:
+            elif right_switch >= second_gain_right:
                 second_gain_right = right_switch
                 second_k_right = k_prime
 
